@@ -17,14 +17,29 @@ LEVELS = ('info', 'warning', 'warn', 'error', 'critical', 'exception', 'fatal', 
 BAD = ('secret', 'wire')
 
 
-def t_no_secret_in_logs_or_errors(ev, outcome, exc):
+def _text_taint(I, exc):
+    """labels of the text str(exc) would have: its arguments, and - for exception classes that
+    build their text in __str__ from their own fields - whatever that method formats"""
+    t = taint_of(exc)
+    try:
+        import types
+        m = I._class_attr(exc.cls, '__str__')
+        if isinstance(m, types.FunctionType) and (m.__module__ or '').startswith('kmip'):
+            t = t | taint_of(I.models.to_str(I, exc))
+    except Exception:
+        for f in exc.fields.values():
+            t = t | taint_of(f)
+    return t
+
+
+def t_no_secret_in_logs_or_errors(ev, outcome, exc, path=None, I=None):
     for e in ev:
         if e[0] == 'log' and e[1] in LEVELS:
             hit = [t for t in BAD if t in e[2]]
             if hit:
                 return "a %s record written by %s may contain %s data" % (e[1], e[3], '/'.join(hit))
     if outcome == 'raise' and exc is not None:
-        hit = [t for t in BAD if t in taint_of(exc)]
+        hit = [t for t in BAD if t in (_text_taint(I, exc) if I is not None else taint_of(exc))]
         if hit:
             return "the text of the %s raised may contain %s data (it is returned to the client / logged)" % (
                 exc.cls.__name__, '/'.join(hit))
